@@ -46,7 +46,7 @@ PLAN = {
     "quick": {"shards": 8, "cases": 300, "timeout_s": 900, "min_evaluations": 9000,
               "min_counters": {"providers_returned": 1600, "contents_read": 1600, "deny_runs": 120, "audit_events_seen": 6000,
                                "files_persisted": 400}},
-    "thorough": {"shards": 16, "cases": 700, "timeout_s": 3300, "min_evaluations": 60000,
+    "thorough": {"shards": 16, "cases": 2400, "timeout_s": 3300, "min_evaluations": 60000,
                  "min_counters": {"providers_returned": 12000}},
 }
 _UID = itertools.count()
